@@ -53,6 +53,31 @@ Apply(e, s) ==
             THEN [s EXCEPT !.depst = d, !.firstStart = FALSE, !.res = "err:R:initfail", !.failed = TRUE]
             ELSE [s EXCEPT !.depst = d, !.firstStart = FALSE, !.st = "running", !.alive = AllLive, !.startCb = @ + 1, !.started = TRUE,
                            !.mode = IF e.opmode = "" THEN defmode ELSE e.opmode]
+  ELSE IF e.op = "startdie" THEN
+     \* member i dies between its spawn and its entry into the group: a start followed by that death (if the member was not caught
+     \* in the window - e.held false - nothing but the start happened)
+     LET s1 == IF s.st = "unloaded" THEN [s EXCEPT !.res = "unknown", !.firstStart = FALSE]
+               ELSE IF s.st = "running" THEN [s EXCEPT !.res = "running", !.firstStart = FALSE]
+               ELSE LET d == IF dep /\ s.depst = "loaded" THEN "running" ELSE s.depst IN
+                    IF failat > 0 /\ s.firstStart
+                      THEN [s EXCEPT !.depst = d, !.firstStart = FALSE, !.res = "err:R:initfail", !.failed = TRUE]    \* the start fails further on: nothing stays
+                      ELSE [s EXCEPT !.depst = d, !.firstStart = FALSE, !.st = "running", !.alive = AllLive, !.startCb = @ + 1, !.started = TRUE, !.mode = defmode]
+     IN IF e.held /\ s.st = "loaded" /\ s1.st = "running" THEN [ApplyFault(e.i, "kill", s1) EXCEPT !.started = FALSE] ELSE s1
+  ELSE IF e.op = "termrace" THEN
+     \* two terminations of one run overlap (the first is kept before it looks whether it was the last member, the second - told to
+     \* exit meanwhile - right after it has left the group): the outcome is that of the two one after the other
+     LET s1 == ApplyFault(e.i, e.reason, s) IN
+     IF e.held /\ s1.st = "running" THEN ApplyFault(e.j, "shutdown", s1) ELSE s1
+  ELSE IF e.op = "startstop" THEN
+     \* a stop request arrives while the start is between two members: either it is refused and the start goes through, or it is
+     \* served after the start - never a half-started application
+     LET s1 == IF s.st = "unloaded" THEN [s EXCEPT !.res = "unknown", !.firstStart = FALSE]
+               ELSE IF s.st = "running" THEN [s EXCEPT !.res = "running", !.firstStart = FALSE]
+               ELSE LET d == IF dep /\ s.depst = "loaded" THEN "running" ELSE s.depst IN
+                    [s EXCEPT !.depst = d, !.firstStart = FALSE, !.st = "running", !.alive = AllLive, !.startCb = @ + 1, !.started = TRUE, !.mode = defmode]
+     IN IF e.held /\ e.res2 = "ok" /\ s1.st = "running"
+          THEN [s1 EXCEPT !.alive = AllDead, !.st = "loaded", !.termCb = @ + 1, !.why = IF e.reason = "force" THEN "kill" ELSE "shutdown", !.checkwhy = TRUE, !.started = FALSE]
+          ELSE s1
   ELSE IF e.op = "fault" THEN ApplyFault(e.i, e.reason, s)
   ELSE IF e.op = "fault2" THEN
      \* member j sits in a handler while member i dies; j then leaves its handler with its own reason: the outcome is that of the two
